@@ -3,7 +3,7 @@ independence, __eq__ field coverage, who-may-write the registries, Iterable para
 from __future__ import annotations
 import ast
 from typing import Dict, List, Optional, Set, Tuple
-from ..model import Program, AnalysisError, own_nodes, norm, names_in, FuncInfo, ClassInfo
+from ..model import decorator_name, Program, AnalysisError, own_nodes, norm, names_in, FuncInfo, ClassInfo
 from ..cfg import cfg_of, CFG
 from ..guards import Env, walk, collect_atoms, valuations, norm as cnorm
 from ..report import Report
@@ -31,6 +31,12 @@ def run(prog: Program, rep: Report, tier: str) -> None:
     registry_hits(rep, prog, cm)
     copy_rules(rep, prog, cm)
     eq_rules(rep, prog, cm)
+    # derived state (caches computed by a constructor) follows its sources -- sa/rules/derived.py
+    from ..rules.derived import check_derived_state, positive_control as _derived_control
+    rep.rule('C16-D8', 'derived state: an attribute the constructor computes from other attributes of the object is recomputed by every method that rebinds one of those attributes (kept alive by a synthetic positive example)')
+    if not _derived_control():
+        rep.error('C16-D8: the synthetic positive example is no longer matched by the rule')
+    rep.analysed['derived_attributes'] = check_derived_state(rep, 'C16-D8 derived-state', prog, [c for mod in ('fggs.fggs',) for c in prog.module(mod).classes.values()])
     edge_typing(rep, prog)
     membership_accessors(rep, prog)
     who_may_write(rep, prog)
@@ -607,6 +613,30 @@ def eq_rules(rep: Report, prog: Program, cm: ClassModel) -> None:
             ok = any(isinstance(x, ast.UnaryOp) and isinstance(x.op, ast.Not) and isinstance(x.operand, ast.Call) and callee_last(x.operand) == '__eq__'
                      for x in own_nodes(ne.node)) or any(isinstance(x, ast.Compare) and isinstance(x.ops[0], ast.Eq) for x in own_nodes(ne.node))
             rep.ob(rule, ne.fq(), f"{cname}.__ne__ is the negation of __eq__", ne.loc(), ok, '')
+
+
+    # the value classes (labels, nodes, edges, rules) are dataclasses: their generated __eq__ must see every declared field,
+    # because every `existing != new` test of the mutators and the Graph/HRG comparisons above rest on it
+    n_fields = 0
+    for ci in prog.module(FG).classes.values():
+        decs = [d for d in ci.node.decorator_list if decorator_name(d) == 'dataclass']
+        if not decs:
+            continue
+        d = decs[0]
+        kws = {k.arg: k.value for k in d.keywords} if isinstance(d, ast.Call) else {}
+        eq_off = 'eq' in kws and isinstance(kws['eq'], ast.Constant) and kws['eq'].value is False
+        own_eq = '__eq__' in ci.methods
+        if eq_off and not own_eq:
+            rep.ob(rule + ' value classes', ci.fq(), f"@dataclass(eq=False) {ci.name}", f"{ci.module.relpath}:{ci.node.lineno}", False, 'instances compare by identity: equal labels / nodes / edges built twice are different')
+        for st in ci.node.body:
+            if isinstance(st, ast.AnnAssign) and isinstance(st.target, ast.Name) and 'ClassVar' not in norm(st.annotation):
+                n_fields += 1
+                v = st.value
+                off = isinstance(v, ast.Call) and callee_last(v) == 'field' and any(k.arg == 'compare' and isinstance(k.value, ast.Constant) and k.value.value is False for k in v.keywords)
+                rep.ob(rule + ' value classes', ci.fq(), f"{ci.name}.{st.target.id} takes part in ==", f"{ci.module.relpath}:{st.lineno}", own_eq or not off,
+                       'declared field of the dataclass, compared by the generated __eq__' if not off else
+                       f"field(compare=False): two {ci.name} objects that differ only in `{st.target.id}` are equal, so every `existing != new` check lets the second one through")
+    rep.floor('C16-D4 value-class fields', n_fields, 9)
 
 
 # ------------------------------------------------------------------------------------------ D5
